@@ -32,6 +32,7 @@ static Avoid::Router *mk(bool ortho, bool transactions) {
     r->setTransactionUse(transactions);
     return r;
 }
+static bool g_allowOverlap = false;   // the 'frame' phase: overlapping shapes (the API allows them); validity is then demanded only where the fresh router's route is valid
 static bool g_pins = false;   // phases with attached connectors: every shape carries a centre pin of class 1
 static Avoid::ShapeRef *mk_shape(Avoid::Router *r, const Rc &c) { Avoid::Rectangle pg(Avoid::Point(c.x0 * S, c.y0 * S), Avoid::Point(c.x1 * S, c.y1 * S)); Avoid::ShapeRef *sh = new Avoid::ShapeRef(r, pg); if (g_pins) new Avoid::ShapeConnectionPin(sh, 1, Avoid::ATTACH_POS_CENTRE, Avoid::ATTACH_POS_CENTRE, true, 0.0, Avoid::ConnDirNone); return sh; }
 static Avoid::ConnEnd src_end(const Ep &c, const vector<Avoid::ShapeRef *> &sh) { return c.a0 >= 0 ? Avoid::ConnEnd(sh[c.a0], 1) : Avoid::ConnEnd(Avoid::Point(c.x0 * S, c.y0 * S)); }
@@ -50,7 +51,7 @@ static string world_str(const World &w) { string s = "shapes:"; for (auto &r : w
 static void judge(const World &w, Avoid::Router *live, const vector<Avoid::ConnRef *> &lc, bool ortho, const string &desc) {
     ctx.count("states");
     // legality of the scene for clauses (i),(ii)
-    for (size_t i = 0; i < w.shapes.size(); i++) for (size_t j = i + 1; j < w.shapes.size(); j++) if (w.shapes[i].alive && w.shapes[j].alive && overlapR(w.shapes[i], w.shapes[j])) { ctx.count("skipped_overlapping_scene"); return; }
+    for (size_t i = 0; i < w.shapes.size(); i++) for (size_t j = i + 1; j < w.shapes.size(); j++) if (w.shapes[i].alive && w.shapes[j].alive && overlapR(w.shapes[i], w.shapes[j]) && !g_allowOverlap) { ctx.count("skipped_overlapping_scene"); return; }
     // with a buffer distance the routing polygons are the shapes grown by it: scenes whose routing polygons overlap or touch (shapes at most twice the buffer apart) are not judged here
     // (overlapping: KF-C03-1; touching: coincident corners of two routing polygons, the through_vertex degeneracy of KF-C03-2/KF-C06-1), and a connector with an end strictly inside a routing polygon is not judged (an end exactly ON its border is)
     if (g_buf) for (size_t i = 0; i < w.shapes.size(); i++) for (size_t j = i + 1; j < w.shapes.size(); j++) if (w.shapes[i].alive && w.shapes[j].alive) { const Rc &P = w.shapes[i], &Q = w.shapes[j];
@@ -280,15 +281,28 @@ static void inside_phase(int G, bool transactions) {
         }
     }
 }
+
+// Connectors that start with NO route: the source sits in a hole closed by a pinwheel of four touching rectangles (no free path exists, which is not judged);
+// every history of depth 1..depth over the legal edits then opens (or does not open) the enclosure, and from then on the connector is judged like any other.
+static void enclosure_phase(int depth, bool transactions) {
+    ctx.phase(mcx::fmt("polyline, source enclosed by %s (no route at first), every history of depth %d, transactions=%d, targets outside", g_allowOverlap ? "a frame of four OVERLAPPING bars" : "a pinwheel of four touching rectangles", depth, transactions));
+    // (touching rectangles leave a zero-width seam that libavoid routes along, so the pinwheel does not really enclose; the frame of four OVERLAPPING bars does)
+    World w0; if (!g_allowOverlap) for (Rc r : {Rc{1, 1, 4, 2, true, false}, Rc{4, 1, 5, 4, true, false}, Rc{2, 4, 5, 5, true, false}, Rc{1, 2, 2, 5, true, false}}) w0.shapes.push_back(r);
+    else for (Rc r : {Rc{1, 1, 5, 2, true, false}, Rc{4, 1, 5, 5, true, false}, Rc{1, 4, 5, 5, true, false}, Rc{1, 1, 2, 5, true, false}}) w0.shapes.push_back(r);
+    for (auto &tg : vector<array<int, 2>>{{6, 0}, {0, 3}, {3, 6}, {6, 6}}) { World w = w0; Ep e; e.x0 = 3; e.y0 = 3; e.x1 = tg[0]; e.y1 = tg[1]; w.conns.push_back(e); vector<Op> ops; dfs(w, w, ops, depth, false, transactions, 1); if (ctx.stopped()) return; }
+}
 int main(int argc, char **argv) {
     ctx.init(argc, argv);
     bool T = ctx.thorough();
     for (int ortho = 0; ortho < 2; ortho++) { phase(2, 1, 1, ortho, true, 1, 1); phase(2, 1, 2, ortho, true, 1, 1); phase(2, 1, 2, ortho, false, 1, 2); phase(2, 1, 2, ortho, true, 2, 2); phase(3, 2, 1, ortho, true, 1, 2); }
     for (int ortho = 0; ortho < 2; ortho++) { phase(2, 1, 1, ortho, true, 1, 1, true); phase(2, 1, 2, ortho, true, 2, 1, true); phase(2, 1, 2, ortho, true, 1, 2, true); }
     g_pins = false;
+    enclosure_phase(1, true); enclosure_phase(2, true); enclosure_phase(2, false);
+    g_allowOverlap = true; enclosure_phase(1, true); enclosure_phase(2, true); enclosure_phase(2, false); g_allowOverlap = false;
     for (int b : {2, 1}) { g_buf = b; phase(2, 1, 1, false, true, 1, 1); phase(2, 1, 2, false, true, 1, 1); if (T) phase(2, 1, 3, false, true, 1, 2); } g_buf = 0;
     grid_phase(3, false, 0); grid_phase(3, false, 1); grid_phase(3, false, 100); grid_phase(3, true, 0); grid_phase(3, false, 200); bar_block_phase(5, 3); inside_phase(7, true);
     if (T) { inside_phase(7, false); inside_phase(8, true); bar_block_phase(5, 1); bar_block_phase(6, 2); grid_phase(3, false, 201); grid_phase(4, false, 200); grid_phase(3, false, 101); grid_phase(3, true, 100); for (int e = 0; e < 6; e++) { grid_phase(4, false, e); grid_phase(3, true, e); } grid_phase(4, true, 0); grid_phase(4, true, 2); }
+    if (T) enclosure_phase(3, true);
     if (T) for (int ortho = 0; ortho < 2; ortho++) { phase(2, 1, 2, ortho, false, 1, 1, true); phase(2, 1, 3, ortho, true, 3, 2, true); phase(3, 2, 2, ortho, true, 2, 2, true); }
     g_pins = false;
     if (T) for (int ortho = 0; ortho < 2; ortho++) { phase(2, 1, 3, ortho, true, 1, 1); phase(2, 1, 3, ortho, false, 1, 2); phase(2, 1, 4, ortho, true, 2, 5); phase(3, 2, 2, ortho, true, 1, 2); phase(3, 1, 3, ortho, true, 3, 5); }
